@@ -12,6 +12,10 @@ pub mod c05;
 pub mod c06;
 pub mod c07;
 pub mod c08;
+pub mod c12;
+pub mod c13;
+pub mod c17;
+pub mod c19;
 pub mod c28;
 pub mod suite;
 
@@ -26,6 +30,10 @@ pub const REGISTRY: &[(&str, RunFn)] = &[
     ("C06", c06::run),
     ("C07", c07::run),
     ("C08", c08::run),
+    ("C12", c12::run),
+    ("C13", c13::run),
+    ("C17", c17::run),
+    ("C19", c19::run),
     ("C28", c28::run),
 ];
 
